@@ -187,7 +187,7 @@ func TestSessionsRandom(t *testing.T) {
 		t.Skip("replaying")
 	}
 	rec := ev.New(t, prop, "sessions-random", "rapid: 0-12 sessions (paused; names with duplicates, prefixes and case variants; label maps) created in a real in-process Manager, optionally reloaded from disk; 1-5 queries each (all / specifications mixing identifiers, names, truncated identifiers, prefixes, extensions, case variants, unknowns / label selectors over =, ==, !=, in, notin, exists, ! / malformed selectors); one session optionally runs a cycle on scripted endpoints that produce 0-60 conflicts and scan problems at prefix-free paths over a component alphabet with characters on both sides of '/' and scripted transition problem lists of 0-40 entries; "+rule)
-	ev.Check(t, rec, 600, 12000, func(rt *rapid.T) {
+	ev.Check(t, rec, 2000, 12000, func(rt *rapid.T) {
 		c := genCase(rt)
 		v := judge(c)
 		rec.Eval()
